@@ -103,19 +103,27 @@ def num(v):
 
 
 def write_tik(rec, d, var):
-    """input files as imcio_write_matrix / imcio_write_dS / imcio_write_index write them (var 0) or in an
-    equally legal layout (var 1: comment line, tabs, flag column, blank after the name)."""
+    """input files as imcio_write_matrix / imcio_write_dS / imcio_write_index write them (var 0) or in equally legal
+    layouts (var 1: comment line, tabs, flag column; var 2: decimal/exponent number formats, table with a leading
+    size line and an error column, as Table::Save writes tables with errors)."""
     with open(os.path.join(d, "sys.gmc"), "w") as f:
         if var == 1:
             f.write("# gmc\n")
         for row in rec["A"]:
             if var == 1:
                 f.write("\t".join(num(v) for v in row) + "\n")
+            elif var == 2:
+                f.write(" ".join(("%.1f" % v) if (v + k) % 2 else ("%.3e" % v) for k, v in enumerate(row)) + "\n")
             else:
                 f.write("".join(num(v) + " " for v in row) + "\n")
     with open(os.path.join(d, "sys.imc"), "w") as f:
+        if var == 2:
+            f.write("%d\n" % len(rec["b"]))
         for g, b in zip(rec["grid"], rec["b"]):
-            f.write("%s %s%s\n" % (repr(g / GRID), num(b), " i" if var == 1 else ""))
+            if var == 2:
+                f.write("%s %.1f 0.25 i\n" % (repr(g / GRID), b))
+            else:
+                f.write("%s %s%s\n" % (repr(g / GRID), num(b), " i" if var == 1 else ""))
     with open(os.path.join(d, "sys.idx"), "w") as f:
         for e in rec["idx"]:
             f.write("%s %s\n" % (tname(rec, e["name"]), render_range(e["blocks"])))
@@ -123,7 +131,7 @@ def write_tik(rec, d, var):
 
 def tik_cmd(exe, rec, var):
     r = rec["rn"] / float(rec["rd"])          # dyadic: exact
-    if var == 1:
+    if var >= 1:
         cmd = [exe, "--imcfile", "sys.imc", "--gmcfile", "sys.gmc", "--idxfile", "sys.idx"]
         if rec["rn"] != 0:                     # 0 is the documented default
             cmd += ["--regularization", repr(r)]
@@ -136,7 +144,7 @@ def run_tik(exe, env, base, i, rec):
     d = os.path.join(base, "t%06d" % i)
     shutil.rmtree(d, ignore_errors=True)
     os.makedirs(d)
-    var = rec.get("var", i % 2)         # a replayed record carries the file layout it failed with
+    var = rec.get("var", i % 3)         # a replayed record carries the file layout it failed with
     write_tik(rec, d, var)
     cmd = tik_cmd(exe, rec, var)
     e = dict(os.environ)
@@ -282,59 +290,110 @@ def con_text(rec):
 # ------------------------------------------------------------------------------------------------
 # csg_fmatch clauses (spec/lsq/Fmatch.tla): relations between outputs of the real code
 # ------------------------------------------------------------------------------------------------
-FM_NAME = "A-A"
-UNIT = 8.0            # lattice units per nm
+UNIT = 8.0            # position lattice units per nm
 
 
 def fm_variant(rec):
     return "constrained" if rec["con"] else "plain"
 
 
-def fm_generator_cmd(rec):
-    """the real CubicSpline evaluates the force function at every pair distance of the TLC record"""
-    rs = [repr((p[2] ** 0.5) / UNIT) for fr in rec["frames"] for p in fr["pairs"]]
+def fm_label(rec, c):
+    it = rec["inter"][c]
+    return "bond" if it["bond"] else ("pair" if it["name"] == "A-A" else "pair-AB")
+
+
+def fm_grid(rec):
+    """(min, max, step, out_step) as the strings that go both into the options file and to the generator"""
     gmax = rec["gmin"] + (rec["n"] - 1) * rec["gstep"]
-    return "spl %r %r %r %d %s %d %s" % (rec["gmin"] / UNIT, gmax / UNIT, rec["gstep"] / UNIT, rec["n"],
-                                         " ".join(num(v) for v in rec["y"]), len(rs), " ".join(rs))
+    d = float(rec["gden"])
+    return repr(rec["gmin"] / d), repr(gmax / d), repr(rec["gstep"] / d), repr(rec["gstep"] / (d * rec["osub"]))
+
+
+def fm_outgrid(rec):
+    nout = (rec["n"] - 1) * rec["osub"] + 1
+    return [(rec["gmin"] * rec["osub"] + i * rec["gstep"]) / float(rec["gden"] * rec["osub"]) for i in range(nout)]
+
+
+def fm_generator_cmds(rec):
+    """per interaction: the real CubicSpline evaluates the force function at every pair distance of that class
+    (TLC's pair list) and at the output grid points"""
+    mn, mx, st, _ = fm_grid(rec)
+    cmds = []
+    for c, it in enumerate(rec["inter"]):
+        rs = [repr((p[2] ** 0.5) / UNIT) for fr in rec["frames"] for p in fr["pairs"] if p[3] == c + 1]
+        rs += [repr(x) for x in fm_outgrid(rec)]
+        cmds.append("spl %s %s %s %d %s %d %s" % (mn, mx, st, rec["n"], " ".join(num(v) for v in it["y"]), len(rs), " ".join(rs)))
+    return cmds
+
+
+def fm_write_dump(path, rec, forces):
+    with open(path, "w") as f:
+        for fi, (fr, F) in enumerate(zip(rec["frames"], forces)):
+            f.write("ITEM: TIMESTEP\n%d\nITEM: NUMBER OF ATOMS\n%d\nITEM: BOX BOUNDS pp pp pp\n0 80\n0 80\n0 80\n"
+                    "ITEM: ATOMS id type x y z fx fy fz\n" % (fi, rec["nb"]))
+            for i, (q, ff) in enumerate(zip(fr["pos"], F)):
+                f.write("%d 1 %r %r %r %r %r %r\n" % (i + 1, q[0] * 1.25, q[1] * 1.25, q[2] * 1.25, ff[0], ff[1], ff[2]))
 
 
 def fm_write_inputs(rec, d, gvals):
-    """reference forces F_i = sum_j G(r_ij) (p_i - p_j)/r_ij + noise_i ; lammps dump (positions k*1.25 Angstrom)"""
+    """reference forces F_i = sum_j G_class(r_ij) (p_i - p_j)/r_ij + noise_i ; lammps dump (positions k*1.25 Angstrom).
+    gvals[c] = values of interaction c at its pair distances, in the order of the TLC pair lists."""
     nb = rec["nb"]
-    gmax = rec["gmin"] + (rec["n"] - 1) * rec["gstep"]
+    mn, mx, st, ost = fm_grid(rec)
     with open(os.path.join(d, "topol.xml"), "w") as f:
-        f.write('<topology><molecules><molecule name="M" nmols="%d" nbeads="1"><bead name="A" type="A" mass="1" q="0"/>'
-                '</molecule></molecules></topology>\n' % nb)
+        f.write("<topology><molecules>")
+        if rec["layout"] == 2:
+            f.write('<molecule name="M" nmols="%d" nbeads="2"><bead name="A" type="A" mass="1" q="0"/>'
+                    '<bead name="B" type="A" mass="1" q="0"/></molecule>' % (nb // 2))
+        else:
+            na = sum(1 for t in rec["types"] if t == "A")
+            f.write('<molecule name="MA" nmols="%d" nbeads="1"><bead name="A" type="A" mass="1" q="0"/></molecule>' % na)
+            if nb > na:
+                f.write('<molecule name="MB" nmols="%d" nbeads="1"><bead name="B" type="B" mass="1" q="0"/></molecule>' % (nb - na))
+        f.write("</molecules>")
+        if rec["layout"] == 2:
+            f.write("<bonded><bond><name>bond1</name><beads>M:A M:B</beads></bond></bonded>")
+        f.write("</topology>\n")
     with open(os.path.join(d, "settings.xml"), "w") as f:
-        f.write("<cg><fmatch><constrainedLS>%s</constrainedLS><frames_per_block>%d</frames_per_block></fmatch>"
-                "<non-bonded><name>%s</name><type1>A</type1><type2>A</type2><fmatch><min>%r</min><max>%r</max>"
-                "<step>%r</step><out_step>%r</out_step></fmatch></non-bonded></cg>\n" % (
-                    "true" if rec["con"] else "false", rec["b"], FM_NAME, rec["gmin"] / UNIT, gmax / UNIT,
-                    rec["gstep"] / UNIT, rec["gstep"] / UNIT))
-    k = 0
-    with open(os.path.join(d, "traj.dump"), "w") as f:
-        for fi, fr in enumerate(rec["frames"]):
-            F = [[float(c) for c in nz] for nz in fr["noise"]]
-            for (i, j, d2) in fr["pairs"]:
-                g = gvals[k]
-                k += 1
-                r = d2 ** 0.5
-                for a in range(3):
-                    e = (fr["pos"][i - 1][a] - fr["pos"][j - 1][a]) / r
-                    F[i - 1][a] += g * e
-                    F[j - 1][a] -= g * e
-            f.write("ITEM: TIMESTEP\n%d\nITEM: NUMBER OF ATOMS\n%d\nITEM: BOX BOUNDS pp pp pp\n0 80\n0 80\n0 80\n"
-                    "ITEM: ATOMS id type x y z fx fy fz\n" % (fi, nb))
-            for i, (q, ff) in enumerate(zip(fr["pos"], F)):
-                f.write("%d 1 %r %r %r %r %r %r\n" % (i + 1, q[0] * 1.25, q[1] * 1.25, q[2] * 1.25, ff[0], ff[1], ff[2]))
+        f.write("<cg>%s<fmatch><constrainedLS>%s</constrainedLS><frames_per_block>%d</frames_per_block></fmatch>" % (
+            "<nbsearch>grid</nbsearch>" if rec["s"] % 2 else "", "true" if rec["con"] else "false", rec["b"]))
+        fm = "<fmatch><min>%s</min><max>%s</max><step>%s</step><out_step>%s</out_step></fmatch>" % (mn, mx, st, ost)
+        for it in rec["inter"]:
+            if it["bond"]:
+                f.write("<bonded><name>%s</name>%s</bonded>" % (it["name"], fm))
+            else:
+                t1, t2 = it["name"].split("-")
+                f.write("<non-bonded><name>%s</name><type1>%s</type1><type2>%s</type2>%s</non-bonded>" % (it["name"], t1, t2, fm))
+        f.write("</cg>\n")
+    k = [0] * len(rec["inter"])
+    forces = []
+    for fr in rec["frames"]:
+        F = [[float(c) for c in nz] for nz in fr["noise"]]
+        for (i, j, d2, cl) in fr["pairs"]:
+            g = gvals[cl - 1][k[cl - 1]]
+            k[cl - 1] += 1
+            r = d2 ** 0.5
+            for a in range(3):
+                e = (fr["pos"][i - 1][a] - fr["pos"][j - 1][a]) / r
+                F[i - 1][a] += g * e
+                F[j - 1][a] -= g * e
+        forces.append(F)
+    fm_write_dump(os.path.join(d, "traj.dump"), rec, forces)
+    if rec["tf"]:
+        known = [[[float(c) for c in kv] for kv in fr["known"]] for fr in rec["frames"]]
+        tot = [[[a + b for a, b in zip(fa, ka)] for fa, ka in zip(F, K_)] for F, K_ in zip(forces, known)]
+        fm_write_dump(os.path.join(d, "traj_tot.dump"), rec, tot)
+        fm_write_dump(os.path.join(d, "known.dump"), rec, known)
 
 
 def fm_execute(exe, env, d, rec, run, gvals):
     shutil.rmtree(d, ignore_errors=True)
     os.makedirs(d)
     fm_write_inputs(rec, d, gvals)
-    cmd = [exe, "--top", "topol.xml", "--trj", "traj.dump", "--options", "settings.xml", "--no-map"]
-    if run["id"] != "full":
+    cmd = [exe, "--top", "topol.xml", "--trj", "traj_tot.dump" if run["tf"] else "traj.dump", "--options", "settings.xml", "--no-map"]
+    if run["tf"]:
+        cmd += ["--trj-force", "known.dump"]
+    elif run["id"] != "full":
         cmd += ["--first-frame", str(run["first"]), "--nframes", str(run["nframes"])]
     e = dict(os.environ)
     e.update(env)
@@ -343,83 +402,104 @@ def fm_execute(exe, env, d, rec, run, gvals):
         rc, out = p.returncode, p.stdout
     except subprocess.TimeoutExpired:
         rc, out = -999, "TIMEOUT"
-    rows = None
-    path = os.path.join(d, FM_NAME + ".force")
-    if os.path.exists(path):
-        rows = [ln.split() for ln in open(path) if ln.strip() and not ln.startswith("#")]
+    tabs = {}
+    for it in rec["inter"]:
+        path = os.path.join(d, it["name"] + ".force")
+        if os.path.exists(path):
+            tabs[it["name"]] = [ln.split() for ln in open(path) if ln.strip() and not ln.startswith("#")]
     shutil.rmtree(d, ignore_errors=True)
-    return cmd, rc, out, rows
+    return cmd, rc, out, tabs
 
 
-def fm_compare(ctx, rec, outs, conv):
-    """outs: {run id: (cmd, rc, out, rows)} -> [(key, text)]"""
+def fm_compare(ctx, rec, outs, conv, gout):
+    """outs: {run id: (cmd, rc, out, {interaction: rows})}; gout[c] = generating spline at the output grid points
+    -> [(key, text)]"""
     var = fm_variant(rec)
     bad = []
+    xs = fm_outgrid(rec)
     tabs = {}
-    for rid, (cmd, rc, out, rows) in outs.items():
+    for rid, (cmd, rc, out, files) in outs.items():
         if rc == -999:
             raise vlib.InfraError("csg_fmatch timed out")
         if "error while loading shared libraries" in out or "file too short" in out:
             raise vlib.InfraError("csg_fmatch could not be loaded: " + out[-300:])
-        if rc != 0 or rows is None:
-            bad.append(("fmatch:run:exit:" + var, "csg_fmatch %s: exit status %s, %s" % (" ".join(cmd[1:]), rc, out[-300:])))
+        if rc != 0:
+            bad.append(("fmatch:run:exit:%s:%s" % (var, "trj-force" if rid == "tf" else "plain-run"),
+                        "csg_fmatch %s: exit status %s, %s" % (" ".join(cmd[1:]), rc, out[-300:])))
             continue
-        try:
-            tab = [(float(r[0]), float(r[1])) for r in rows]
-        except (ValueError, IndexError):
-            bad.append(("fmatch:table:format", "%s.force of run %s is not a numeric table: %s" % (FM_NAME, rid, rows[:3])))
-            continue
-        if len(tab) != rec["n"] or any(not vlib.close(x, (rec["gmin"] + i * rec["gstep"]) / UNIT, 1e-9, 1e-12)
-                                       for i, (x, _) in enumerate(tab)):
-            bad.append(("fmatch:table:grid", "%s.force of run %s: grid %s, expected the %d knots from %r step %r" % (
-                FM_NAME, rid, [x for x, _ in tab], rec["n"], rec["gmin"] / UNIT, rec["gstep"] / UNIT)))
-            continue
-        tabs[rid] = [y for _, y in tab]
+        for c, it in enumerate(rec["inter"]):
+            lab = fm_label(rec, c)
+            rows = files.get(it["name"])
+            if rows is None:
+                bad.append(("fmatch:table:missing:" + lab, "run %s wrote no %s.force" % (rid, it["name"])))
+                continue
+            try:
+                tab = [(float(r[0]), float(r[1])) for r in rows]
+            except (ValueError, IndexError):
+                bad.append(("fmatch:table:format", "%s.force of run %s is not a numeric table: %s" % (it["name"], rid, rows[:3])))
+                continue
+            if len(tab) != len(xs) or any(not vlib.close(x, e, 1e-9, 1e-12) for (x, _), e in zip(tab, xs)):
+                bad.append(("fmatch:table:grid:%s" % ("decimal" if rec["gden"] == 10 else "dyadic"),
+                            "%s.force of run %s: grid %s, expected the %d points %s (min %s max %s out_step %s)" % (
+                                it["name"], rid, [x for x, _ in tab], len(xs), xs, fm_grid(rec)[0], fm_grid(rec)[1], fm_grid(rec)[3])))
+                continue
+            tabs[(rid, c)] = [y for _, y in tab]
     if bad:
         return bad
-    # relation from the TLC record:  sum coef * T(run)[i] = 0
     scale = max([1.0] + [abs(v) for t in tabs.values() for v in t if v == v])
-    for i in range(rec["n"]):
-        ctx.count()
-        tot = sum(cf * tabs[rid][i] for cf, rid in rec["rel"])
-        if not abs(tot) <= 1e-6 * scale * rec["K"]:
-            bad.append(("fmatch:block-independence:" + var,
-                        "grid point %d: %d * T(full) = %r but the single-block runs on the same frames give %s (sum %r): "
-                        "a block's result depends on the blocks before it" % (
-                            i + 1, rec["K"], rec["K"] * tabs["full"][i], [tabs[rid][i] for cf, rid in rec["rel"] if rid != "full"],
-                            sum(tabs[rid][i] for cf, rid in rec["rel"] if rid != "full"))))
-            break
-    if not rec["noisy"]:
-        ys = max(1.0, conv * max(abs(v) for v in rec["y"]))
-        for rid in sorted(tabs):
-            for i in range(rec["n"]):
+    for rel in rec["rels"]:
+        ncoef = sum(abs(cf) for cf, _ in rel["t"])
+        for c in range(len(rec["inter"])):
+            for i in range(len(xs)):
                 ctx.count()
-                if not abs(tabs[rid][i] - conv * rec["y"][i]) <= 1e-6 * ys:
-                    bad.append(("fmatch:reproduction:%s:%s" % (var, "full" if rid == "full" else "block"),
-                                "run %s, knot %d: fitted force %r, generating spline has %r (= %r * %d)" % (
-                                    rid, i + 1, tabs[rid][i], conv * rec["y"][i], conv, rec["y"][i])))
+                tot = sum(cf * tabs[(rid, c)][i] for cf, rid in rel["t"])
+                if not abs(tot) <= 1e-6 * scale * ncoef:
+                    bad.append(("fmatch:%s:%s:%s" % (rel["c"], var, fm_label(rec, c)),
+                                "%s.force, grid point %d: relation %s gives %r on the written tables %s" % (
+                                    rec["inter"][c]["name"], i + 1, rel["t"], tot,
+                                    {rid: tabs[(rid, c)][i] for _, rid in rel["t"]})))
+                    break
+    if not rec["noisy"]:
+        for (rid, c) in sorted(tabs):
+            exp = [conv * v for v in gout[c]]
+            ys = max(1.0, max(abs(v) for v in exp))
+            for i in range(len(xs)):
+                ctx.count()
+                if not abs(tabs[(rid, c)][i] - exp[i]) <= 1e-6 * ys:
+                    bad.append(("fmatch:reproduction:%s:%s:%s" % (var, "full" if rid == "full" else "tf" if rid == "tf" else "block",
+                                                                  fm_label(rec, c)),
+                                "run %s, %s.force at %r: fitted force %r, generating spline has %r (= %r * %r)" % (
+                                    rid, rec["inter"][c]["name"], xs[i], tabs[(rid, c)][i], exp[i], conv, gout[c][i])))
                     break
     return bad
 
 
 def fm_text(rec):
-    return "[%d beads, %d frames, frames_per_block=%d (%d blocks), constrainedLS=%s, grid %r..+%d*%r, knot values %s%s, seed %d]" % (
-        rec["nb"], len(rec["frames"]), rec["b"], rec["K"], "true" if rec["con"] else "false", rec["gmin"] / UNIT,
-        rec["n"] - 1, rec["gstep"] / UNIT, rec["y"], " + noise" if rec["noisy"] else "", rec["s"])
+    return ("[layout %d: %s; %d beads, %d frames, frames_per_block=%d (%d blocks), constrainedLS=%s, grid %s..%s step %s "
+            "out_step %s, knot values %s%s%s, seed %d]" % (
+                rec["layout"], "+".join(it["name"] for it in rec["inter"]), rec["nb"], len(rec["frames"]), rec["b"], rec["K"],
+                "true" if rec["con"] else "false", fm_grid(rec)[0], fm_grid(rec)[1], fm_grid(rec)[2], fm_grid(rec)[3],
+                [it["y"] for it in rec["inter"]], " + noise" if rec["noisy"] else "", " + trj-force run" if rec["tf"] else "",
+                rec["s"]))
 
 
 def run_fmatch(ctx, fms, exe_fm, exe_drv, env, base, workers):
-    items = [("conv", ["fconv"])] + [(i, [fm_generator_cmd(r)]) for i, r in enumerate(fms)]
+    items = [("conv", ["fconv"])] + [(i, fm_generator_cmds(r)) for i, r in enumerate(fms)]
     results, crashes = vlib.run_items(exe_drv, items, env=env)
     if crashes:
         raise vlib.InfraError("force-field generator (drv_lsq spl) failed: %s" % list(crashes.values())[:1])
     conv = float(results["conv"][0][0].split()[1])
-    gvals = {}
+    gvals, gout = {}, {}
     for i, r in enumerate(fms):
-        v = [ln for ln in results[i][0] if ln.startswith("v")]
-        if not v:
-            raise vlib.InfraError("force-field generator gave no values: %s" % results[i][0])
-        gvals[i] = [float(t) for t in v[0].split()[1:]]
+        nout = len(fm_outgrid(r))
+        gvals[i], gout[i] = [], []
+        for c in range(len(r["inter"])):
+            v = [ln for ln in results[i][c] if ln.startswith("v")]
+            if not v:
+                raise vlib.InfraError("force-field generator gave no values: %s" % results[i][c])
+            vals = [float(t) for t in v[0].split()[1:]]
+            gvals[i].append(vals[:-nout])
+            gout[i].append(vals[-nout:])
     jobs = [(i, run) for i, r in enumerate(fms) for run in r["runs"]]
 
     def work(job):
@@ -432,25 +512,35 @@ def run_fmatch(ctx, fms, exe_fm, exe_drv, env, base, workers):
     for (i, run), o in zip(jobs, res):
         outs.setdefault(i, {})[run["id"]] = o
     classes = {}
+    feats = {"layout0": 0, "layout1:two-pair-interactions": 0, "layout2:bond+pair": 0, "decimal-grid": 0, "out_step<step": 0,
+             "trj-force": 0, "nbsearch-grid": 0, "blocks>=2": 0}
     for i, rec in enumerate(fms):
         ctx.traces += len(rec["runs"])
-        cl = "%s,K=%d,b=%d%s" % (fm_variant(rec), rec["K"], rec["b"], ",noisy" if rec["noisy"] else "")
+        cl = "layout%d,%s,K=%d,b=%d%s" % (rec["layout"], fm_variant(rec), rec["K"], rec["b"], ",noisy" if rec["noisy"] else "")
         classes[cl] = classes.get(cl, 0) + 1
+        for k, on in (("layout0", rec["layout"] == 0), ("layout1:two-pair-interactions", rec["layout"] == 1),
+                      ("layout2:bond+pair", rec["layout"] == 2), ("decimal-grid", rec["gden"] == 10),
+                      ("out_step<step", rec["osub"] > 1), ("trj-force", rec["tf"]), ("nbsearch-grid", rec["s"] % 2 == 1),
+                      ("blocks>=2", rec["K"] >= 2)):
+            feats[k] += 1 if on else 0
         if rec["K"] >= 2:
             ctx.nontriv(("fm", rec["s"]))
-        bad = fm_compare(ctx, rec, outs[i], conv)
+        bad = fm_compare(ctx, rec, outs[i], conv, gout[i])
         if bad:
             # re-run once before reporting (DESIGN 7.7)
             again = {run["id"]: fm_execute(exe_fm, env, os.path.join(base, "g%06d-%s" % (i, run["id"])), rec, run, gvals[i])
                      for run in rec["runs"]}
-            bad2 = {k for k, _ in fm_compare(ctx, rec, again, conv)}
+            bad2 = {k for k, _ in fm_compare(ctx, rec, again, conv, gout[i])}
             for key, text in bad:
                 if key in bad2:
                     ctx.violation(key, text + " " + fm_text(rec), rec)
         if i in (0, len(fms) - 1):
-            ctx.sample({"csg_fmatch": fm_text(rec), "runs": [r_["id"] for r_ in rec["runs"]], "relation": rec["rel"]})
+            ctx.sample({"csg_fmatch": fm_text(rec), "runs": [r_["id"] for r_ in rec["runs"]], "relations": rec["rels"]})
     ctx.extra["fmatch_instances_by_class"] = dict(sorted(classes.items()))
+    ctx.extra["fmatch_instances_by_feature"] = feats
     ctx.extra["fmatch_force_conversion_of_dump_reader"] = conv
+    if not getattr(ctx, "replay", None) and any(v == 0 for v in feats.values()):
+        raise vlib.InfraError("csg_fmatch feature classes not all exercised in this run: %s" % feats)
 
 
 # ------------------------------------------------------------------------------------------------
@@ -553,7 +643,7 @@ def _run(ctx, quick, workers, exe_imc, exe_drv, env, base, exe_fm):
             raise vlib.InfraError("minimiser lemmas were vacuous (%d, %d)" % (small_t, small_c))
         ctx.extra["minimiser_lemma_systems"] = {"tikhonov": small_t, "constrained": small_c}
         # ---- csg_fmatch instances (relational clauses) -------------------------------------------------
-        nfm = 80 if quick else 3200
+        nfm = 120 if quick else 3200
         for s0 in range(seed0, seed0 + nfm, 800):
             fms += _tlc(ctx, "MCFmatch", "Fmatch: block windows, relation coefficients, pair lists, chain construction, guard",
                         {"C06_SEED0": s0, "C06_NSEEDS": min(800, seed0 + nfm - s0)}, module="MCFmatch")
@@ -571,6 +661,7 @@ def _run(ctx, quick, workers, exe_imc, exe_drv, env, base, exe_fm):
         outs = list(ex.map(work, list(enumerate(tik))))
     shapes = {}
     confirmed = []
+    tik_vars = {id(rec): rec.get("var", i % 3) for i, rec in enumerate(tik)}
     for i, (rec, (cmd, rc, out, tables)) in enumerate(zip(tik, outs)):
         ctx.traces += 1
         shapes[rec["n"]] = shapes.get(rec["n"], 0) + 1
@@ -579,7 +670,7 @@ def _run(ctx, quick, workers, exe_imc, exe_drv, env, base, exe_fm):
         bad = compare_tik(ctx, rec, rc, out, tables)
         if bad:
             # re-run once from the recorded artefact before reporting (DESIGN 7.7)
-            cmd2, rc2, out2, tables2 = run_tik(exe_imc, env, base, 10000000 + i, rec)
+            cmd2, rc2, out2, tables2 = run_tik(exe_imc, env, base, 9999999 + i - (i % 3) + tik_vars[id(rec)], rec)
             bad2 = {k for k, _ in compare_tik(ctx, rec, rc2, out2, tables2)}
             confirmed += [(key, text, rec, cmd) for key, text in bad if key in bad2]
         if i in (0, len(tik) - 1):
@@ -592,7 +683,7 @@ def _run(ctx, quick, workers, exe_imc, exe_drv, env, base, exe_fm):
             key = replay_key if replay_key else value_key(rec, solver_wrong)
         r2 = dict(rec)
         r2["cmd"] = cmd[1:]
-        r2["var"] = 1 if "--imcfile" in cmd else 0
+        r2["var"] = tik_vars.get(id(rec), 0)
         ctx.violation(key, text + " " + tik_text(rec, cmd), r2)
     ctx.extra["tikhonov_systems_by_n"] = {str(k): v for k, v in sorted(shapes.items())}
 
@@ -601,6 +692,8 @@ def _run(ctx, quick, workers, exe_imc, exe_drv, env, base, exe_fm):
     if con and not getattr(ctx, "replay", None) and not any(
             r["p"] == 2 and abs(r["kexp"][0] - r["kexp"][1]) >= 60 for r in con):
         raise vlib.InfraError("row-scaling relation vacuous: no instance with |k1 - k2| >= 60")
+    if con and not getattr(ctx, "replay", None) and not any(r["p"] == 0 for r in con):
+        raise vlib.InfraError("no unconstrained (p = 0) system in the constrained family")
     ctx.extra["row_scaling_instances_with_exponent_gap_ge_60"] = sum(
         1 for r in con if r["p"] == 2 and abs(r["kexp"][0] - r["kexp"][1]) >= 60)
     results, crashes = vlib.run_items(exe_drv, items, env=env) if items else ({}, {})
